@@ -220,6 +220,8 @@ def check(ctx):
             if x.id in ret_names:
                 return True
             srcs = value_sources(sv, x, at)         # the returned list under the local name of an inlined helper
+            # (`sink = errors if collect_errors else None`: calling .append on None raises, it drops nothing)
+            srcs = [(k, pl) for k, pl in srcs if not (k == "expr" and isinstance(pl, ast.Constant) and pl.value is None)]
             return bool(srcs) and all(k == "expr" and isinstance(pl, ast.Name) and pl.id in ret_names for k, pl in srcs) or \
                 bool(srcs) and {(k, ast.unparse(pl) if isinstance(pl, ast.AST) else pl) for k, pl in srcs} == \
                 {(k, ast.unparse(pl) if isinstance(pl, ast.AST) else pl) for rn_ in ret_names for k, pl in value_sources(sv, ast.Name(id=rn_, ctx=ast.Load()), at)}
